@@ -374,6 +374,7 @@ def check(pid, tier, seed):
 
     # 3. confirm each violation by replaying it in a fresh process
     violations = []
+    unconfirmed = []
     for v in m["violations"]:
         bname = v.get("build") or binaries[0][0]
         b = dict(binaries).get(bname, binaries[0][1])
@@ -389,8 +390,15 @@ def check(pid, tier, seed):
                 v["replay_attempts"] = attempt + 1
                 break
         if not ok:
-            die("replay of %s did not reproduce the violation (rc=%s, got %s)" % (v["replay_path"], rc, json.dumps(info)))
+            # never reported as a violation; harness trouble (exit 2) unless other violations of this batch do replay
+            unconfirmed.append("replay of %s did not reproduce the violation (rc=%s, got %s)" % (v["replay_path"], rc, json.dumps(info)))
+            continue
         violations.append(v)
+    if unconfirmed and not violations:
+        die(unconfirmed[0] + (" (and %d more)" % (len(unconfirmed) - 1) if len(unconfirmed) > 1 else ""))
+    for u in unconfirmed:
+        # next to violations that did reproduce in fresh processes: the code under test is not a function of the script
+        print("NOTE: not reported, " + u[:300])
     if nondet and not violations:
         # runs that are not a function of their script, and no violation that replays: the harness cannot be trusted here
         die("non-determinism: " + "; ".join(nondet))
